@@ -63,7 +63,7 @@ func init() {
 	core.Register(&core.Prop{
 		ID:    "C17",
 		Level: "exploration",
-		Rule: "seeded charts packaged and signed by helm (action.Package --sign and Signatory.ClearSign) with OpenPGP RSA keys generated per worker; per chart: every byte position (stride-sampled to ~240 positions per part in the quick tier; thorough: all positions, all 8 bit flips at every 4th) of archive, clear-signed headers+body and signature armor × {bit flip, byte replacement, insertion, deletion, truncation}; structural mutants (re-signed messages with swapped / extra / missing file entries, other signer, other hash, duplicated / prefixed blocks, several clear-signed blocks (untrusted-key block vouching for a tampered archive before / after / around the genuine block, blank-line and text gaps) with the tampered archive on disk, CRLF, trailing blanks, header changes, second signature block); keyrings {signer, signer+others, others, empty, missing, secret ring, same user id other key}; keyring files rewritten in place between verifications (same path, same process: signer removed / added / file emptied / removed / replaced by rename); renamed / moved archives incl. names not ending in .tgz (.tar.gz, .tar, none, .zip, ...; untouched and tampered bytes) by direct URL, repository index reference and dependency manager; through Signatory.Verify and downloader.VerifyChart (all mutants) and action.Verify, LocateChart(Verify), DownloadTo(VerifyAlways/VerifyIfPossible/VerifyLater) (sampled + all structural) and Manager.Update(VerifyIfPossible/VerifyAlways) / Manager.Build(VerifyIfPossible) on a local-server repository dependency (the dependency whose verification must fail must give an error and must not reach charts/). " +
+		Rule: "seeded charts packaged and signed by helm (action.Package --sign and Signatory.ClearSign) with OpenPGP RSA keys generated per worker; per chart: every byte position (stride-sampled to ~240 positions per part in the quick tier; thorough: all positions, all 8 bit flips at every 4th) of archive, clear-signed headers+body and signature armor × {bit flip, byte replacement, insertion, deletion, truncation}; structural mutants (re-signed messages with swapped / extra / missing file entries, other signer, other hash, duplicated / prefixed blocks, several clear-signed blocks (untrusted-key block vouching for a tampered archive before / after / around the genuine block, blank-line and text gaps) with the tampered archive on disk, CRLF, trailing blanks, header changes, second signature block); keyrings {signer, signer+others, others, empty, missing, secret ring, same user id other key}; keyring files rewritten in place between verifications (same path, same process: signer removed / added / file emptied / removed / replaced by rename); renamed / moved archives incl. names not ending in .tgz (.tar.gz, .tar, none, .zip, ...; untouched and tampered bytes) by direct URL, repository index reference and dependency manager; through Signatory.Verify and downloader.VerifyChart (all mutants) and action.Verify, LocateChart(Verify), DownloadTo(VerifyAlways/VerifyIfPossible/VerifyLater), action.Pull with --verify × --prov × --untar (sampled + all structural) and Manager.Update(VerifyIfPossible/VerifyAlways) / Manager.Build(VerifyIfPossible) on a local-server repository dependency (the dependency whose verification must fail must give an error and must not reach charts/). " +
 			"distinct_nontrivial counts (part, mutation kind, expected outcome, entry point) tuples.",
 		Assumptions: []string{
 			"golang.org/x/crypto/openpgp (clearsign.Decode, CheckDetachedSignature, armor) is the trusted definition of 'valid signature by a key in the keyring'",
@@ -591,6 +591,39 @@ func (c *checker) download(part, kind string, base string, archive, prov []byte,
 		vd = verdict{ok: err == nil, err: err, hash: sum}
 	})
 	c.judge("LocateChart(url,verify)", part, kind, expect, hard, vd, sum, detail)
+
+	// helm pull: every flag combination with --verify set (with and without --prov / --untar):
+	// whenever Verify is set a pull whose verification must fail must return an error.
+	type combo struct{ later, untar bool }
+	combos := []combo{{false, false}, {true, false}, {false, true}, {true, true}}
+	if part == "archive" || part == "body" || part == "armor" || part == "header" {
+		combos = []combo{{true, false}, {false, true}}
+	}
+	for i, cb := range combos {
+		ep := "Pull(--verify"
+		if cb.later {
+			ep += " --prov"
+		}
+		if cb.untar {
+			ep += " --untar"
+		}
+		ep += ")"
+		pd := filepath.Join(c.w.dir, fmt.Sprintf("pull%d-%d", c.count, i))
+		os.MkdirAll(pd, 0o755)
+		core.Guard(c.res, ep, func() {
+			p := action.NewPull(action.WithConfig(&action.Configuration{}))
+			p.Settings = c.w.settings
+			p.Verify, p.VerifyLater, p.Untar, p.Keyring = true, cb.later, cb.untar, ringFile
+			p.DestDir, p.UntarDir = pd, "unpacked"
+			out, err := p.Run(url)
+			vd = verdict{ok: err == nil, err: err, hash: sum}
+			if err == nil && !strings.Contains(out, sum) {
+				vd.hash = "(pull output without the verified hash: " + trunc(out, 200) + ")"
+			}
+		})
+		c.judge(ep, part, kind, expect, hard, vd, sum, detail)
+		os.RemoveAll(pd)
+	}
 	c.res.Stat("download_path_runs", 1)
 }
 
